@@ -145,3 +145,15 @@ def run(P: Program, rep: Report):
         rep.fail("C14.R2", f"list-inverse:{k}", names.relpath, msg)
     if not bad2:
         rep.ok("C14.R2", f"list-inverse:{n2}-lists", names.relpath)
+
+    rep.rule("C14.R3", "the merged names reach the document verbatim: the writer's text for entries (symbolic serialisation, see C06.R3) "
+                       "places every field value unaltered between ' = ' and the line end (a writer that trims or re-wraps value text "
+                       "changes names such as 'Knuth, Donald ' or braced words holding blanks)")
+    from .c06 import check_templates
+    ncfg, npaths = check_templates(P, rep, "C14.R3", None, [[("entry", 2), ("entry", 1)]], trailings=(True,), vcmodes=("zero", "sym"))
+    rep.require_count("C14.R3", "writer paths", npaths, 2)
+
+    rep.rule("C14.R9", "no unsafe memoisation in the modules this property rests on: a function decorated with lru_cache / cache / "
+                      "cached_property neither takes nor returns a mutable object (else later calls see stale or shared results)")
+    from . import common as _common
+    _common.no_unsafe_memoisation(P, rep, "C14.R9", ['middlewares.names', 'entrypoint'])
